@@ -56,6 +56,23 @@ Theorem C18_arc_points_row_major_in_bbox : forall a,
   StronglySorted lt_yx (ar_points a) /\ (forall p, In p (ar_points a) -> contains (ar_bbox a) p = true).
 Proof. intros a H. split; [apply arc_points_sorted, H | intros p; apply arc_points_in_bbox, H]. Qed.
 
+(* ---- "inside the swept angle" read as RAYS (not lines), with the recorded finding excluded ----------
+   K18_tiny_sweep_opposite_side ps = (operation is Intersection and det(right normal, left normal) <= 0): the
+   two radial rays are not in proper counter-clockwise position - in practice |sweep| below the resolution of the
+   1024-scaled normals, where both normals coincide (known_findings.txt class tiny_sweep_opposite_side).
+   The p_trig_* suites check det > 0 for every Intersection sector with |sweep| >= 0.1 deg.
+   Outside that class every accepted point of a < 180 deg sector is in front of at least one radial ray;
+   inside it the statement is false, witnessed by the real case Sector (0,0) d=11, 0 deg, sweep 0 deg, point (0,5). *)
+Theorem C18_sector_in_front_of_a_ray : forall s p,
+  ps_op (se_ps s) = OpIntersection -> K18_tiny_sweep_opposite_side (se_ps s) = false ->
+  se_contains s p = true -> in_front_of_a_ray s p.
+Proof. exact sector_front. Qed.
+
+Theorem C18_sector_in_front_of_a_ray_refuted :
+  exists s p, ps_op (se_ps s) = OpIntersection /\ K18_tiny_sweep_opposite_side (se_ps s) = true /\
+    In p (se_points s) /\ ~ in_front_of_a_ray s p.
+Proof. exact sector_front_refuted. Qed.
+
 (* ---- accuracy of the half-plane construction (reals) -------------------------------------- *)
 Local Open Scope R_scope.
 
